@@ -118,16 +118,6 @@ Fixpoint ceval (env : list (string * cbinding)) (e : cexpr) : outcome Z :=
   | CGroup a => ceval env a
   end.
 
-(* the guard: no division whose divisor evaluates to 0 *)
-Fixpoint div_safe (env : list (string * cbinding)) (e : cexpr) : bool :=
-  match e with
-  | CLitE _ | CRef _ => true
-  | CAdd a b | CSub a b | CMul a b => div_safe env a && div_safe env b
-  | CDiv a b => div_safe env a && div_safe env b &&
-                match ceval env b with Ok 0 => false | _ => true end
-  | CGroup a => div_safe env a
-  end.
-
 (* ====================================================================================== *)
 (* 4. items that a message / an enum does not support                                      *)
 (* ====================================================================================== *)
@@ -158,13 +148,20 @@ Definition from_token_of (err : string) (k : Z) : outcome unit :=
   else if k <? 0 then Crash AttributeError          (* parser stack entry: not a node *)
   else Crash IndexError.
 
-Fixpoint dispatch (table : list (string * string * Z)) (final : string) (cls : string) : outcome unit :=
+Fixpoint dispatch (table : list (string * string * option Z)) (final : string) (cls : string)
+  : outcome unit :=
   match table with
   | [] => ParserError final
-  | (c, err, k) :: r => if String.eqb c cls then from_token_of err k else dispatch r final cls
+  | (c, err, how) :: r =>
+      if String.eqb c cls then
+        match how with
+        | Some k => from_token_of err k
+        | None => ParserError err     (* E(lineno=p.lineno(1), filepath=..., token="...") *)
+        end
+      else dispatch r final cls
   end.
 
-Definition unsupported_outcome (table : list (string * string * Z)) (final : string) (i : item)
+Definition unsupported_outcome (table : list (string * string * option Z)) (final : string) (i : item)
   : outcome unit :=
   match item_own_error i with
   | Some e => ParserError e
@@ -299,20 +296,6 @@ Fixpoint py_render_defaults (t : ty) : outcome unit :=
          | kf :: r => bind (py_render_defaults (snd kf)) (fun _ => go r)
          end) fs
   | _ => Ok tt
-  end.
-
-Fixpoint no_empty_enum (t : ty) : bool :=
-  match t with
-  | TEnum _ ms => match ms with [] => false | _ => true end
-  | TAlias t => no_empty_enum t
-  | TArr _ _ e => no_empty_enum e
-  | TMsg _ fs =>
-      (fix go (l : list (Z * ty)) : bool :=
-         match l with
-         | [] => true
-         | kf :: r => no_empty_enum (snd kf) && go r
-         end) fs
-  | _ => true
   end.
 
 (* format_int_value (c, go and py alike): str of the int; when guarded, a ValueError becomes a
